@@ -5,6 +5,12 @@ package c07
 import (
 	"context"
 	"errors"
+	"fmt"
+	"github.com/form3tech-oss/f1/v2/internal/log"
+	"github.com/form3tech-oss/f1/v2/internal/progress"
+	"github.com/form3tech-oss/f1/v2/internal/workers"
+	"github.com/form3tech-oss/f1/v2/pkg/f1/scenarios"
+	"github.com/sirupsen/logrus"
 	"os"
 	"path/filepath"
 	"strconv"
@@ -176,5 +182,72 @@ func TestC07Runs(t *testing.T) {
 		o.Case("c01_ok", []string{kit.I(passed.Load()), kit.I(failed.Load()), kit.I(sn.DroppedIterationCount),
 			kit.I(sn.SuccessfulIterationDurations.Count), kit.I(sn.FailedIterationDurations.Count), kit.I(sn.DroppedIterationCount),
 			"T", kit.I(iter["success"]), kit.I(iter["fail"]), kit.I(iter["dropped"])}, "T", tags...)
+	}
+}
+
+// ---------------------------------------------------------------- a mark arriving after the iteration ended
+
+// Something an iteration left behind (a watchdog goroutine, a callback) marks its T after the
+// iteration has ended, while the worker waits for the next tick: the next iteration on that
+// worker still starts clean and is reported by its own outcome.
+func TestC07LateMark(t *testing.T) {
+	o := kit.Get()
+	defer o.Close()
+	r := kit.NewRand(kit.Seed() + 71)
+	for i := 0; i < kit.N(6, 60); i++ {
+		stats := &progress.Stats{}
+		var handles []*f1testing.T
+		var dirty atomic.Int64
+		var mu sync.Mutex
+		sc := &scenarios.Scenario{Name: "c07late", ScenarioFn: func(*f1testing.T) f1testing.RunFn {
+			return func(t *f1testing.T) {
+				if t.Failed() {
+					dirty.Add(1)
+				}
+				mu.Lock()
+				handles = append(handles, t)
+				mu.Unlock()
+			}
+		}}
+		as := workers.NewActiveScenario(sc, runkit.NewMetrics(nil, false), stats, log.NewDiscardLogger(), logrus.New())
+		as.Setup()
+		m := workers.New(0, as)
+		pool := m.NewTriggerPool(1)
+		ctx, cancel := context.WithCancel(context.Background())
+		wctx := pool.Start(ctx)
+		rounds := int(r.Range(2, 5))
+		for k := 0; k < rounds; k++ {
+			pool.Trigger(wctx, 1)
+			deadline := time.Now().Add(5 * time.Second)
+			for int(stats.Total().SuccessfulIterationDurations.Count+stats.Total().FailedIterationDurations.Count) < k+1 && time.Now().Before(deadline) {
+				time.Sleep(200 * time.Microsecond)
+			}
+			time.Sleep(time.Duration(r.Range(0, 2)) * time.Millisecond) // the worker is parked again
+			mu.Lock()
+			if len(handles) > 0 {
+				switch r.Intn(3) { // what the iteration left behind fires now
+				case 0:
+					handles[len(handles)-1].Fail()
+				case 1:
+					handles[len(handles)-1].Errorf("late %d", k)
+				default:
+				}
+			}
+			mu.Unlock()
+		}
+		cancel()
+		select {
+		case <-m.WaitForCompletion():
+		case <-time.After(10 * time.Second):
+			o.Fail("c07-pool-not-complete", "the pool did not complete after cancel")
+			continue
+		}
+		tot := stats.Total()
+		if dirty.Load() > 0 {
+			o.Fail("dirty-handle", fmt.Sprintf("%d iteration(s) started with T.Failed() already true: a failure marked after the previous iteration on that worker had ended was carried over", dirty.Load()))
+		}
+		// every body passed: every iteration is reported successful
+		o.Case("c01_ok", []string{kit.I(rounds), "0", "0", kit.I(tot.SuccessfulIterationDurations.Count), kit.I(tot.FailedIterationDurations.Count), "0",
+			"F", "0", "0", "0"}, "T", "late-mark", "nt")
 	}
 }
